@@ -507,21 +507,27 @@ def step_node_at(tree, path):
 
 
 # ---------------------------------------------------------------- alphabets
-NAMES = (u"n1", u"name with spaces", u"", u"\xdcn\xefcode n\xe4me", u"name: with colon", u"n <x>")
-DESCS = ((), (u"(a) first description line",), (u"(a) first description line", u"(b) second: with colon | pipe"))
-TAGSETS = ((), (u"t1",), (u"t1", u"t.2"), (u"t1", u"t-2", u"k=v"))
-STEP_NAMES = (u"1st step", u"2 things <x>", u"3rd step, longer text", u"4 | pipe in name")
+# hostile text: str.format / %-interpolation metacharacters must come back verbatim (and must not break messages)
+HOSTILE = u"{name} {} } { %s %(x)s %"
+NAMES = (u"n1", u"name with spaces", u"", u"\xdcn\xefcode n\xe4me", u"name: with colon", u"n <x>", HOSTILE)
+DESCS = ((), (u"(a) first description line",), (u"(a) first description line", u"(b) second: with colon | pipe"),
+         (u"(c) " + HOSTILE,), (u"(d) %s {0}", u"(e) plain again"))
+TAGSETS = ((), (u"t1",), (u"t1", u"t.2"), (u"t1", u"t-2", u"k=v"), (u"t{name}%s", u"{}%(x)s%"))
+STEP_NAMES = (u"1st step", u"2 things <x>", u"3rd step, longer text", u"4 | pipe in name", u"5 " + HOSTILE)
 DOC_CONTENTS = ((u"plain line",), (u"first", u"  indented more", u"", u"last"), (),
                 (u"| looks like a row |", u"@looks-like-tag", u"# looks like a comment", u"Given looks like a step"),
-                (u"Feature: looks like a keyword", u"'''", u"Examples:"))
+                (u"Feature: looks like a keyword", u"'''", u"Examples:"),
+                (u"{name} {} } {", u"  %s %(x)s %"))
 TABLES = (((u"h1",), ((u"c1",),)),
           ((u"h1", u"h2"), ((u"a", u""), (u"x\\|y", u"\xfc →"))),
           ((u"h 1", u"h2", u"h3"), ()),
-          ((u"h1", u"h2"), ((u"", u""), (u"inner  space", u"b"), (u"\\|", u"c"))))
+          ((u"h1", u"h2"), ((u"", u""), (u"inner  space", u"b"), (u"\\|", u"c"))),
+          ((u"{name}", u"%s"), ((u"{}", u"%(x)s"), (u"} {", u"%"))))
 EX_TABLES = (((u"x",), ((u"1",),)),
              ((u"x", u"y"), ((u"1", u""), (u"a\\|b", u"\xfc"))),
              ((u"x",), ()),
-             None)
+             None,
+             ((u"{x}", u"%d"), ((u"{}", u"%s"), (u"{", u"%"))))
 
 
 def step_args():
